@@ -86,6 +86,25 @@ def rule_rs_planner_values(ctx, P, r, backends):
         else:
             r.ok(inst + f' ({nev} list pairs incl. overlapping / duplicated entries)', func=f.name, loc=f.mod.src)
 
+class _Buffered:
+    """collects rule verdicts so that a structural finding can be reconsidered by value before it is reported"""
+    def __init__(self):
+        self.calls = []
+    def ok(self, *a, **k):
+        self.calls.append(('ok', a, k))
+    def fail(self, *a, **k):
+        self.calls.append(('fail', a, k))
+    def undecided(self, *a, **k):
+        self.calls.append(('undecided', a, k))
+    def fails(self):
+        return any(c[0] != 'ok' for c in self.calls)
+    def replay(self, r, as_ok=None):
+        for kind, a, k in self.calls:
+            if as_ok is not None and kind != 'ok':
+                r.ok(a[0] + as_ok, func=k.get('func'), loc=k.get('loc'))
+            else:
+                getattr(r, kind)(*a, **k)
+
 def rule_planners(ctx, P, rc, rd, backends):
     cg = callgraph.get(P)
     seen = set()
@@ -158,113 +177,127 @@ def rule_planners(ctx, P, rc, rd, backends):
                 rd.fail(f'{f.name}: terminator on success paths', func=f.name, sig='success path without terminator', loc=terms[0].loc,
                         msg='a path that returns >= 0 does not pass the store of the -1 terminator')
             continue
-        # RS / ISA-L shape: scan i = 0 .. k+m-1, append the usable ones, stop with 0 as soon as k are collected.
-        # Stated over polynomial forms (poly.py / loops.py): the position of the append, the count that is compared with k
-        # and the position of the terminator are related by identities, however count and cursor are written
-        # (index counter, walking pointer, pointer difference).
-        from ..poly import PolyCtx, Poly
-        from ..loops import loops_of, innermost
-        from ..cfg import reachable_from as _rf
-        pc = PolyCtx(P, f, C)
-        LS = loops_of(P, f, pc)
-        idx_stores = [s for s in stores if s.ops[0] != '-1']
-        L0 = innermost(LS, idx_stores[0].bb) if idx_stores else None
-        if not idx_stores or L0 is None:
-            rd.undecided(f'{f.name}: planner loop', msg='no index store inside a loop')
-            continue
-        s0 = idx_stores[0]
-        L = L0.via(s0.bb)                     # recurrences along iterations that append
-        body, h = L.body, L.header
-        def elem(ptr_operand, ctx_pc):
-            root, off = ctx_pc.ptr(ptr_operand)
-            if root != 'arg3' or any(x % 4 for x in off.values()):
-                return None
-            return Poly({k_: x // 4 for k_, x in off.items()})
-        pos = elem(s0.ops[1], L.pc)          # list position written by the append
-        Kp = None
-        # the test count == k on the appending iteration: an exiting or in-loop branch whose comparison, with merge values
-        # resolved along the append, reads (pos + 1) - k  (count after the append against k)
-        tests, pretests = [], []
-        for b in body:
-            t = b.insts[-1]
-            if t.op == 'br' and len(t.targets) == 2 and t.ops:
-                c_ = f.defs.get(t.ops[0])
-                if c_ is not None and c_.op == 'icmp' and c_.pred in ('eq', 'ne', 'sge', 'sle', 'slt', 'sgt'):
-                    D = L.pc.val(c_.ops[0]) - L.pc.val(c_.ops[1])
-                    katoms = [a for a in D.atoms() if re.search(r'\.k$', a)]
-                    if pos is not None and len(katoms) == 1:
-                        Kp = Poly.atom(katoms[0])
-                        if D == pos + Poly.const(1) - Kp or D == Kp - pos - Poly.const(1):
-                            tests.append((b, c_, t))
-                        elif D == pos - Kp or D == Kp - pos:
-                            pretests.append((b, c_, t))
-        inst = f'{f.name}: count == k is tested after every append before the loop can end'
-        if pos is not None and not tests and pretests:
-            rd.fail(inst, func=f.name, sig='count == k is tested before the append, not after it', loc=pretests[0][1].loc,
-                    msg='the number of collected fragments is compared with k before the current index is appended: after appending the k-th usable index '
-                        'as the last scanned one the loop ends without the test, and the call returns -1 with an unterminated list although k fragments are available')
-            continue
-        if pos is None or not tests:
-            # the count may be kept in another form (a count-down of fragments still needed, ...): decide the planner by value
+        def _rs_shape(rd):
+            # RS / ISA-L shape: scan i = 0 .. k+m-1, append the usable ones, stop with 0 as soon as k are collected.
+            # Stated over polynomial forms (poly.py / loops.py): the position of the append, the count that is compared with k
+            # and the position of the terminator are related by identities, however count and cursor are written
+            # (index counter, walking pointer, pointer difference).
+            from ..poly import PolyCtx, Poly
+            from ..loops import loops_of, innermost
+            from ..cfg import reachable_from as _rf
+            pc = PolyCtx(P, f, C)
+            LS = loops_of(P, f, pc)
+            idx_stores = [s for s in stores if s.ops[0] != '-1']
+            L0 = innermost(LS, idx_stores[0].bb) if idx_stores else None
+            if not idx_stores or L0 is None:
+                rd.undecided(f'{f.name}: planner loop', msg='no index store inside a loop')
+                return
+            s0 = idx_stores[0]
+            L = L0.via(s0.bb)                     # recurrences along iterations that append
+            body, h = L.body, L.header
+            def elem(ptr_operand, ctx_pc):
+                root, off = ctx_pc.ptr(ptr_operand)
+                if root != 'arg3' or any(x % 4 for x in off.values()):
+                    return None
+                return Poly({k_: x // 4 for k_, x in off.items()})
+            pos = elem(s0.ops[1], L.pc)          # list position written by the append
+            Kp = None
+            # the test count == k on the appending iteration: an exiting or in-loop branch whose comparison, with merge values
+            # resolved along the append, reads (pos + 1) - k  (count after the append against k)
+            tests, pretests = [], []
+            for b in body:
+                t = b.insts[-1]
+                if t.op == 'br' and len(t.targets) == 2 and t.ops:
+                    c_ = f.defs.get(t.ops[0])
+                    if c_ is not None and c_.op == 'icmp' and c_.pred in ('eq', 'ne', 'sge', 'sle', 'slt', 'sgt'):
+                        D = L.pc.val(c_.ops[0]) - L.pc.val(c_.ops[1])
+                        katoms = [a for a in D.atoms() if re.search(r'\.k$', a)]
+                        if pos is not None and len(katoms) == 1:
+                            Kp = Poly.atom(katoms[0])
+                            if D == pos + Poly.const(1) - Kp or D == Kp - pos - Poly.const(1):
+                                tests.append((b, c_, t))
+                            elif D == pos - Kp or D == Kp - pos:
+                                pretests.append((b, c_, t))
+            inst = f'{f.name}: count == k is tested after every append before the loop can end'
+            if pos is not None and not tests and pretests:
+                rd.fail(inst, func=f.name, sig='count == k is tested before the append, not after it', loc=pretests[0][1].loc,
+                        msg='the number of collected fragments is compared with k before the current index is appended: after appending the k-th usable index '
+                            'as the last scanned one the loop ends without the test, and the call returns -1 with an unterminated list although k fragments are available')
+                return
+            if pos is None or not tests:
+                # the count may be kept in another form (a count-down of fragments still needed, ...): decide the planner by value
+                try:
+                    from ..consteval import Undecidable as _Und
+                    badv, nevv = planner_value_check(P, f)
+                except Exception as e_:
+                    badv, nevv = 'not decidable by value: ' + str(e_)[:80], 0
+                if badv is None:
+                    for _n in range(4):
+                        rd.ok(inst + f' (count kept in another form; decided as a value function on {nevv} list pairs, see R06m)' + ('' if not _n else f' [{_n}]'), func=f.name, loc=s0.loc, trivial=bool(_n))
+                    return
+                rd.fail(inst, func=f.name, sig='no count/k test in the loop', loc=s0.loc, msg='the planner never compares the number of collected fragments with k (' + badv + ')')
+                return
+            tb, tc, tt = tests[0]
+            esc = reaches_without(f, s0.bb, lambda i: i.bb not in body, lambda i: i is tc, s0.idx + 1)
+            if esc is None:
+                rd.ok(inst, func=f.name, loc=tc.loc)
+            else:
+                rd.fail(inst, func=f.name, sig='loop can end after an append without the count == k test', loc=tc.loc,
+                        msg='after appending the k-th usable index the loop may terminate (i reaches k+m) before "count == k" is evaluated: '
+                            'the call returns -1 with an unterminated list although k fragments are available')
+            # success edge: the edge on which count == k holds stores the terminator at [count] and returns 0
+            lhs_is_count = (L.pc.val(tc.ops[0]) - L.pc.val(tc.ops[1])) == pos + Poly.const(1) - Kp
+            eq_true = tc.pred in ('eq',) or (tc.pred == 'sge' and lhs_is_count) or (tc.pred == 'sle' and not lhs_is_count)
+            eqedge = f.blocks[tt.targets[0]] if eq_true else f.blocks[tt.targets[1]]
+            vals = returns_via_edge(f, tb, eqedge)
+            region = {eqedge} | set(_rf(eqedge, avoid_blocks={h}))
+            tpos = None
+            for tm in terms:
+                if tm.bb in region:
+                    tpos = elem(tm.ops[1], L.pc)
+            if vals == {0} and tpos is not None and tpos == pos + Poly.const(1):
+                rd.ok(f'{f.name}: count == k => fragments_needed[count] = -1, return 0', func=f.name, loc=terms[0].loc)
+            else:
+                rd.fail(f'{f.name}: success edge', func=f.name, sig=f'count==k edge returns {sorted(map(str, vals))}, terminator at {tpos}', loc=tt.loc,
+                        msg=f'the count == k edge must store the -1 terminator right behind the last appended index (position {pos} + 1, found {tpos}) and return 0 (returns {sorted(map(str, vals))})')
+            allret = set()
+            for b in f.order:
+                t = b.insts[-1]
+                if t.op == 'ret' and t.ops:
+                    from ..vflow import possible_consts
+                    allret |= possible_consts(f, t.ops[0])
+            if allret <= {0, -1} or all(isinstance(v, int) and v <= 0 for v in allret):
+                rd.ok(f'{f.name}: returns only 0 or a negative value', func=f.name, loc=f.mod.src)
+            else:
+                rd.fail(f'{f.name}: return values', func=f.name, sig=f'returns {sorted(map(str, allret))}', loc=f.mod.src, msg='unexpected return values')
+            # the appended value is the scan variable, which runs over [0, k+m)
+            val = L0.pc.val(s0.ops[0])
+            scan = [g_ for g_ in L0.guards() if g_.block is L0.header and Poly.atom(g_.iv) == val]
+            okscan = False
+            for g_ in scan:
+                T_ = L0.trip(g_)
+                init, step = L0.ivs()[g_.iv]
+                if T_ is not None and init is not None and init.is_zero() and len(T_) == 2 and all(v == 1 for v in T_.values()) and \
+                   sorted(re.sub(r'^.*\.', '', k_[0]) for k_ in T_) == ['k', 'm']:
+                    okscan = True
+            if okscan:
+                rd.ok(f'{f.name}: stored indexes are the loop variable < k+m', func=f.name, loc=s0.loc)
+            else:
+                rd.fail(f'{f.name}: stored index range', func=f.name, sig=f'appended value {val}, scan {[str(L0.trip(g_)) for g_ in scan]}', loc=s0.loc,
+                        msg=f'the value appended to the list ({val}) is not a scan variable running over 0 .. k+m-1')
+        buf = _Buffered()
+        _rs_shape(buf)
+        if buf.fails():
+            # the structural reading found something it does not recognise: the planner is small enough to be decided as a value
+            # function over list pairs (R06m) - only when that fails as well is the structural finding reported
             try:
-                from ..consteval import Undecidable as _Und
                 badv, nevv = planner_value_check(P, f)
             except Exception as e_:
                 badv, nevv = 'not decidable by value: ' + str(e_)[:80], 0
             if badv is None:
-                for _n in range(4):
-                    rd.ok(inst + f' (count kept in another form; decided as a value function on {nevv} list pairs, see R06m)' + ('' if not _n else f' [{_n}]'), func=f.name, loc=s0.loc, trivial=bool(_n))
+                buf.replay(rd, as_ok=f" (written in a form the structural rule does not read; decided as a value function on {nevv} list pairs, see R06m)")
                 continue
-            rd.fail(inst, func=f.name, sig='no count/k test in the loop', loc=s0.loc, msg='the planner never compares the number of collected fragments with k (' + badv + ')')
-            continue
-        tb, tc, tt = tests[0]
-        esc = reaches_without(f, s0.bb, lambda i: i.bb not in body, lambda i: i is tc, s0.idx + 1)
-        if esc is None:
-            rd.ok(inst, func=f.name, loc=tc.loc)
-        else:
-            rd.fail(inst, func=f.name, sig='loop can end after an append without the count == k test', loc=tc.loc,
-                    msg='after appending the k-th usable index the loop may terminate (i reaches k+m) before "count == k" is evaluated: '
-                        'the call returns -1 with an unterminated list although k fragments are available')
-        # success edge: the edge on which count == k holds stores the terminator at [count] and returns 0
-        lhs_is_count = (L.pc.val(tc.ops[0]) - L.pc.val(tc.ops[1])) == pos + Poly.const(1) - Kp
-        eq_true = tc.pred in ('eq',) or (tc.pred == 'sge' and lhs_is_count) or (tc.pred == 'sle' and not lhs_is_count)
-        eqedge = f.blocks[tt.targets[0]] if eq_true else f.blocks[tt.targets[1]]
-        vals = returns_via_edge(f, tb, eqedge)
-        region = {eqedge} | set(_rf(eqedge, avoid_blocks={h}))
-        tpos = None
-        for tm in terms:
-            if tm.bb in region:
-                tpos = elem(tm.ops[1], L.pc)
-        if vals == {0} and tpos is not None and tpos == pos + Poly.const(1):
-            rd.ok(f'{f.name}: count == k => fragments_needed[count] = -1, return 0', func=f.name, loc=terms[0].loc)
-        else:
-            rd.fail(f'{f.name}: success edge', func=f.name, sig=f'count==k edge returns {sorted(map(str, vals))}, terminator at {tpos}', loc=tt.loc,
-                    msg=f'the count == k edge must store the -1 terminator right behind the last appended index (position {pos} + 1, found {tpos}) and return 0 (returns {sorted(map(str, vals))})')
-        allret = set()
-        for b in f.order:
-            t = b.insts[-1]
-            if t.op == 'ret' and t.ops:
-                from ..vflow import possible_consts
-                allret |= possible_consts(f, t.ops[0])
-        if allret <= {0, -1} or all(isinstance(v, int) and v <= 0 for v in allret):
-            rd.ok(f'{f.name}: returns only 0 or a negative value', func=f.name, loc=f.mod.src)
-        else:
-            rd.fail(f'{f.name}: return values', func=f.name, sig=f'returns {sorted(map(str, allret))}', loc=f.mod.src, msg='unexpected return values')
-        # the appended value is the scan variable, which runs over [0, k+m)
-        val = L0.pc.val(s0.ops[0])
-        scan = [g_ for g_ in L0.guards() if g_.block is L0.header and Poly.atom(g_.iv) == val]
-        okscan = False
-        for g_ in scan:
-            T_ = L0.trip(g_)
-            init, step = L0.ivs()[g_.iv]
-            if T_ is not None and init is not None and init.is_zero() and len(T_) == 2 and all(v == 1 for v in T_.values()) and \
-               sorted(re.sub(r'^.*\.', '', k_[0]) for k_ in T_) == ['k', 'm']:
-                okscan = True
-        if okscan:
-            rd.ok(f'{f.name}: stored indexes are the loop variable < k+m', func=f.name, loc=s0.loc)
-        else:
-            rd.fail(f'{f.name}: stored index range', func=f.name, sig=f'appended value {val}, scan {[str(L0.trip(g_)) for g_ in scan]}', loc=s0.loc,
-                    msg=f'the value appended to the list ({val}) is not a scan variable running over 0 .. k+m-1')
+        buf.replay(rd)
 
 def run(ctx):
     P = ctx.program()
@@ -504,6 +537,9 @@ def run(ctx):
                             r.fail(inst, func=fn.name, sig=f'{call.callee[1:]} also returns {sorted(neg - {int(cst[0])})}', loc=tt.loc,
                                    msg=f'{fn.name} recognises the failure of {call.callee[1:]} by "== {cst[0]}" but the helper also returns {sorted(neg - {int(cst[0])})}: '
                                        'that failure is not recognised and the fall-back is skipped')
+    if not nj:
+        # nothing to agree on (the shortcut was merged into its caller): the rule is about a pair of sites
+        r.ok('no helper of the planner is recognised by comparing its result with a negative constant', func='<xor_hd_code.c>', loc=hm2.src)
     r.require_min(1)
 
     # ---------------- R06m RS-style planners as value functions
